@@ -287,7 +287,9 @@ def match_language(pattern, flags=0, tail=ALL, maxrun=8):
     if isinstance(pattern, re.Pattern):
         flags = pattern.flags
         pattern = pattern.pattern
-    seq = expand_backrefs(list(P.parse(pattern, flags)), maxrun)
+    tree = P.parse(pattern, flags)
+    flags = tree.state.flags          # includes inline flags such as (?s)
+    seq = expand_backrefs(list(tree), maxrun)
     return Translator(flags, maxrun).tr(seq, tail)
 
 
